@@ -54,6 +54,15 @@ ALGOS = ["DYNAMOSA", "MOSA", "MIO", "WHOLE_SUITE", "RANDOM"]
 AGS = ["NONE", "SIMPLE", "MUTATION_ANALYSIS"]
 HASHSEEDS = ["0", "1", "2", "123", "random"]
 
+# Every budget of the run must be free of the wall clock: DYNAMOSA's local search has its own time budget (5 s by default,
+# LocalSearchTimer) and the executor's per-test timeout is 1 s per statement; under machine load both fire at different
+# points in two otherwise identical runs.  The corpus has no long-running code, so generous limits change nothing else.
+NO_WALL_CLOCK = {
+    "local_search.local_search_time": 100_000_000,
+    "stopping.maximum_test_execution_timeout": 60,
+    "stopping.test_execution_time_per_statement": 15,
+}
+
 # mechanism key -> candidate repair (vlib.monitors.rngtap.FIXES) that removes it, so that the next source becomes visible
 PEEL = {
     "diverges-at:testcase.py:TestCase._resolve_head_references": "resolve-head-sorted",
@@ -130,7 +139,8 @@ def plan(tier, seed):
 
 def _spec(ctx, case, proj, tag):
     return {"module": case["sut"], "project_path": str(proj), "output_path": str(ctx.scratch / f"out_{tag}"), "algorithm": case["algo"],
-            "seed": case["seed"], "budget": case["budget"], "assertion_generation": case["ag"], "monitors": ["vlib.monitors.rngtap"]}
+            "seed": case["seed"], "budget": case["budget"], "assertion_generation": case["ag"], "monitors": ["vlib.monitors.rngtap"],
+            "config": dict(NO_WALL_CLOCK)}
 
 
 def _run(ctx, case, proj, tag, hashseed, fixes, breaks):
